@@ -24,6 +24,8 @@ from harness import fortran_rt as rt
 PID = "C03"
 MODULE = "m03"
 NY = 3                     # size of the user type "y"
+COMPS = ["y", "z", "w"]    # state components; user type = component name, extents fortran_rt.UTYPE_SIZES
+RHS_OF = {"y": "<func>rhs", "z": "<func>rhsz", "w": "<func>rhsw"}
 TIDS = ["final", "mid"]
 # -g as the test-suite does, plus: local reals start as signalling NaN and using one traps, so that
 # "the generated code reads a local variable that has no value" is an observable abort instead of a
@@ -290,7 +292,34 @@ def features(case):
         f.add("phases%d" % len(case["phases"]))
     for fn in used_functions(case):
         f.add(fn)
+    txt = json.dumps(case["phases"])
+    for b in ("norm_2", "isnan", "elementwise_abs", "len"):
+        if "<builtin>%s" % b in txt:
+            f.add(b)
+            if sum(1 for c in COMPS if _applied(case, "<builtin>%s" % b, c)) >= 2:
+                f.add(b + "_on_two_types")
+    ncomp = sum(1 for c in COMPS if ("<state>%s" % c) in txt)
+    if ncomp >= 2:
+        f.add("components%d" % ncomp)
     return sorted(f)
+
+
+def _applied(case, fn, comp):
+    """is the function applied to a value of the component's user type (<state>c or its temporary ct)"""
+    names = ("<state>%s" % comp, comp + "t")
+    found = []
+
+    def walk(e):
+        if isinstance(e, list):
+            if len(e) == 4 and e[0] == "call" and e[1] == fn and any(a in (["var", n] for n in names) for a in e[2]):
+                found.append(1)
+            if len(e) == 5 and e[0] == "call" and e[2] == fn and any(a in (["var", n] for n in names) for a in e[3]):
+                found.append(1)
+            for c in e:
+                walk(c)
+    for ph in case["phases"]:
+        walk(ph["prog"])
+    return bool(found)
 
 
 # ------------------------------------------------------------------ values
@@ -305,7 +334,9 @@ def canon(x):
     if isinstance(x, (int, np.integer)):
         return int(x)
     if isinstance(x, (float, np.floating)):
-        return int(x) if x == int(x) and abs(x) < 2 ** 53 else "float:%r" % float(x)
+        if x != x or x in (float("inf"), float("-inf")) or abs(x) >= 2 ** 53:
+            return "float:%r" % float(x)
+        return int(x) if x == int(x) else rt.fmt_float(float(x))
     if isinstance(x, np.ndarray) and x.ndim == 1:
         out = [canon(z) for z in x]
         return out if all(isinstance(z, int) and not isinstance(z, bool) for z in out) else "array:%r" % (out,)
@@ -373,10 +404,10 @@ def TIDS_OF(case):
 
 
 def run_fortran(case, code):
-    gen = rt.generate(code, MODULE, {"y": NY}, used_functions(case))
+    gen = rt.generate(code, MODULE, dict(rt.UTYPE_SIZES), used_functions(case))
     if "error" in gen:
         return {"gen_error": gen["error"], "message": gen["message"]}
-    drv = rt.make_driver(MODULE, gen, case["init"], case["nsteps"], {"y": NY})
+    drv = rt.make_driver(MODULE, gen, case["init"], case["nsteps"], dict(rt.UTYPE_SIZES))
     res = rt.build_and_run([(MODULE + ".f90", gen["text"]), ("drv.f90", drv)], options=FFLAGS, timeout=60)
     ne_in_code = any("!=" in ln for ln in gen["text"].splitlines() if not ln.lstrip().startswith("! "))
     out = {"symbols": [list(s) for s in gen["symbols"]], "phases": gen["phases"], "time_ids": gen["time_ids"],
@@ -468,6 +499,9 @@ def classify(case, o):
     if o["kind"] == "generation_error" and o["exception"] == "ValueError" and "NoneType" in o["message"] \
             and "pow" in feats:
         return "power_kind_none"
+    if o["kind"] == "generation_error" and o["exception"] == "ValueError" \
+            and "mismatched user types" in o["message"] and "elementwise_abs_on_two_types" in feats:
+        return "elementwise_abs_two_user_types"
     if o["kind"] == "generation_error" and o["exception"] == "TypeError" and "sequence item" in o["message"] \
             and uses_default(case):
         return "default_argument_unsupported"
@@ -527,7 +561,7 @@ def end_to_coq(end):
 def modelled(case):
     """inside the expression language of coq/model/Lang.v"""
     feats = features(case)
-    return "pow" not in feats and "utype_arith" not in feats
+    return "pow" not in feats and "utype_arith" not in feats and "norm_2" not in feats
 
 
 def case_term(case, res):
@@ -576,7 +610,10 @@ class PGen:
         self.r = rng
         self.allow = allow              # optional features: pow, ne, cond_expr, utype_arith, raise, zero_trip
         self.na = rng.choice([3, 4])
-        self.use_y = rng.random() < 0.7
+        c = rng.random()
+        # state components, each of its own user type / extent
+        self.comps = [] if c < 0.25 else (["y"] if c < 0.45 else rng.sample(COMPS, rng.choice([2, 2, 3])))
+        self.use_y = bool(self.comps)
         self.use_arr = rng.random() < 0.65
         self.use_bool = rng.random() < 0.4
         self.use_gl = rng.random() < 0.35     # a guarded loop whose bound is assigned under the same guard
@@ -718,6 +755,8 @@ class PGen:
     def stmts(self, scope, top):
         """one or more builder calls (a list)"""
         r = self.r
+        if len(self.comps) >= 2 and r.random() < 0.15:
+            return self.comp_stmts(scope)
         c = r.random()
         lp = []
         if c < 0.26:
@@ -753,25 +792,55 @@ class PGen:
             if r.random() < 0.5:
                 return [["stmt", ["call", [x], "<func>sq", [self.small(scope)], [["y", self.small(scope)]]]]]
             return [["stmt", ["call", [x], "<func>sq", [self.small(scope), self.small(scope)], []]]]
-        if c < 0.70 and self.use_y:
-            d = r.random()
-            if d < 0.5:
-                return [["stmt", ["call", ["yt"], "<func>rhs", [["var", "<t>"], ["var", "<state>y"]], []]],
-                        ["stmt", ["assign", "<state>y", None, ["var", "yt"], []]]]
-            if d < 0.75 and "utype_arith" in self.allow:
-                return [["stmt", ["assign", "<state>y", None,
-                                  ["nary", "sum", [["var", "<state>y"],
-                                                   ["nary", "prod", [["int", r.choice([2, -1])], ["var", "<state>y"]]]]], []]]]
-            return [["stmt", ["call", [r.choice(PS)], "<builtin>len", [["var", "<state>y"]], []]]]
-        if c < 0.80 and self.use_y:
+        if c < 0.70 and self.comps:
+            return self.comp_stmts(scope)
+        if c < 0.80 and self.comps:
+            cp = r.choice(self.comps)
             tm = ["var", "<t>"] if r.random() < 0.6 else ["nary", "sum", [["var", "<t>"], ["int", r.randint(1, 3)]]]
-            return [["stmt", ["yield", "y", r.choice(TIDS), tm, ["var", "<state>y"]]]]
+            return [["stmt", ["yield", cp, r.choice(TIDS), tm, ["var", "<state>" + cp]]]]
         if c < 0.86:
             return [["stmt", ["assign", "<t>", None, ["nary", "sum", [["var", "<t>"], ["var", "<dt>"]]], []]]]
         if c < 0.92 and self.use_bool:
             return [["stmt", ["assign", "<p>f", None,
                               self.nested_bool(scope) if r.random() < 0.6 else self.boolean(2, scope), []]]]
         return [["stmt", ["assign", r.choice(PS), None, self.clamp(self.num(2, scope), scope), []]]]
+
+    def rhs_pair(self, cp):
+        return [["stmt", ["call", [cp + "t"], RHS_OF[cp], [["var", "<t>"], ["var", "<state>" + cp]], []]],
+                ["stmt", ["assign", "<state>" + cp, None, ["var", cp + "t"], []]]]
+
+    def comp_stmts(self, scope):
+        """operations on the state components; preferably the SAME built-in on several components of different
+        user types (the Fortran generator emits one helper subroutine per function and argument kinds)"""
+        r = self.r
+        if r.random() < 0.3:
+            return self.rhs_pair(r.choice(self.comps))
+        cps = list(self.comps)
+        r.shuffle(cps)
+        cps = cps[:r.choice([1, 2, 2, 3])]
+        kinds = ["len", "len", "len", "abs", "norm", "norm"] + (["isnan"] if self.use_bool else []) \
+            + (["lin"] if "utype_arith" in self.allow else [])
+        b = r.choice(kinds)
+        out = []
+        for cp in cps:
+            st = ["var", "<state>" + cp]
+            if b == "len":
+                out.append(["stmt", ["call", [r.choice(PS)], "<builtin>len", [st], []]])
+            elif b == "abs":
+                out.append(["stmt", ["call", [cp + "t"], "<builtin>elementwise_abs", [st], []]])
+                out.append(["stmt", ["assign", "<state>" + cp, None, ["var", cp + "t"], []]])
+            elif b == "isnan":
+                out.append(["stmt", ["call", ["<p>f"], "<builtin>isnan", [st], []]])
+            elif b == "lin":
+                out.append(["stmt", ["assign", "<state>" + cp, None,
+                                     ["nary", "sum", [st, ["nary", "prod", [["int", r.choice([2, -1])], st]]]], []]])
+        if b == "norm":
+            calls = [["call", "<builtin>norm_2", [["var", "<state>" + cp]], []] for cp in cps]
+            if len(calls) == 1:
+                out.append(["stmt", ["call", ["<p>n"], "<builtin>norm_2", calls[0][2], []]])
+            else:
+                out.append(["stmt", ["assign", "<p>n", None, ["nary", "sum", calls], []]])
+        return out
 
     def guarded_loop(self, scope):
         """with if_(c): m <- small value in -1..3;  x <- x + ... [i = lo..m]   (m has no value while c is false)"""
@@ -806,9 +875,8 @@ class PGen:
                 prog.append(["stmt", ["assign", v, None, ["nary", "sum", [["var", v], ["int", r.choice([1, 1, 2])]]], []]])
             if self.use_bool:
                 prog.append(["stmt", ["assign", "<p>f", None, ["bin", "gt", ["var", r.choice(PS)], ["int", r.randint(0, 3)]], []]])
-            if self.use_y:
-                prog.append(["stmt", ["call", ["yt"], "<func>rhs", [["var", "<t>"], ["var", "<state>y"]], []]])
-                prog.append(["stmt", ["assign", "<state>y", None, ["var", "yt"], []]])
+            for cp in self.comps:
+                prog.extend(self.rhs_pair(cp))
             if self.use_arr:
                 prog.append(["stmt", ["call", ["a"], "<builtin>array", [["int", self.na]], []]])
                 sc = dict(scope, loops=[("i", 0, self.na)])
@@ -868,8 +936,10 @@ class PGen:
             init[v] = r.randint(-2, 5)
         if self.use_bool:
             init["<p>f"] = r.random() < 0.5
-        if self.use_y:
-            init["<state>y"] = [r.randint(-2, 4) for _ in range(NY)]
+        for cp in self.comps:
+            init["<state>" + cp] = [r.randint(-2, 4) for _ in range(rt.UTYPE_SIZES[cp])]
+        if "<p>n" in json.dumps(phases):
+            init["<p>n"] = 0
         return {"phases": phases, "initial": self.names[0], "init": init, "nsteps": r.choice([2, 3, 3, 4])}
 
 
@@ -1235,7 +1305,7 @@ def strip(case):
 def main(tier):
     rep = common.Reporter(PID, tier)
     seed = common.seed()
-    ps = common.proof_stage(rep, PID, gen=["lang", "c03"])
+    ps = common.proof_stage(rep, PID, gen=["lang", "c03"], extra_targets=["model/FortranCheck.vo", "model/FortranPrinter.vo"])
 
     cases = corpus()
     n_corpus = len(cases)
